@@ -572,7 +572,15 @@ func (c *cmafIngester) sendMediaSegments(ctx context.Context, nextSegNr, nowMS i
 			} else {
 				switch rd.contentType {
 				case "video", "text", "image":
-					se = c.asset.generateTimelineEntries(rd.repID, wTimes, atoMS)
+					if c.asset.Reps[rd.repID] == nil {
+						// generated subtitles (timesubsstpp_/timesubswvtt_) have no VoD representation:
+						// their timeline is the reference timeline in milliseconds, as in the MPD
+						stl := changeTimelineTimescale(&m.SegmentTimelineType{S: refSegEntries.entries},
+							int(refSegEntries.mediaTimescale), SUBS_TIME_TIMESCALE)
+						se = segEntries{entries: stl.S, startNr: refSegEntries.startNr, mediaTimescale: SUBS_TIME_TIMESCALE}
+					} else {
+						se = c.asset.generateTimelineEntries(rd.repID, wTimes, atoMS)
+					}
 				case "audio":
 					se = c.asset.generateTimelineEntriesFromRef(refSegEntries, rd.repID)
 				default:
